@@ -2,6 +2,8 @@ import PhyVerif.Model.C11
 import PhyVerif.Spec.C11
 import PhyVerif.Lemmas.C11
 import PhyVerif.Lemmas.C11b
+import PhyVerif.Model.C11b
+import PhyVerif.Lemmas.C11c
 /-!
 # C11 — merging probes conserves every spike and renumbers ids disjointly
 Only property theorems + non-vacuity examples; proofs in `Lemmas/C11.lean`.
@@ -103,5 +105,21 @@ example : mergedOrigins [[3, 5, 5], [1, 5], [5, 9]] = [(1,0), (0,0), (0,1), (0,2
 example : mergedIds [[3, 5, 5], [1, 5], [5, 9]] [[0, 2, 2], [4, 0], [1, 1]] = [7, 0, 2, 2, 3, 9, 9] := by decide
 example : templateOffsets [[0, 1, 1], [0, 0]] [3, 2] = [0, 3] := by decide   -- last template of probe 0 has no spike
 example : clusterProbes [[0, 2, 2], [4, 0], [1, 1]] = [0, 0, 0, 1, 1, 1, 1, 1, 2, 2] := by decide
+
+/-- Composition with the loader model of C04 (the last step of `merge()` is to load what it wrote):
+for ANY probes the merged directory loads — its spike times are non-decreasing by `merged_sorted`, so
+the loader's monotonicity check never rejects a merge — and the loaded model shows exactly the merged
+samples, amplitudes, cluster and template ids (C11) and the merged channel map, probe labels and
+positions (C12). -/
+theorem merged_dataset_loads (inv : C04.Arr → C04.Arr) (p : Probes) (h : ProbesOK p) :
+    ∃ v d', C04.load inv (mergedDir p) = .ok (v, d') ∧
+      v.samples = .file (intVec (mergedTimes p.times)) ∧
+      v.amplitudes = some (intVec (gather p.amps (spikeOrder p.times))) ∧
+      v.spikeClusters = natVec (mergedIds p.times p.clusters) ∧
+      v.spikeTemplates = natVec (mergedTemplateIds p.times p.templates p.ntemplates) ∧
+      v.channelMap = natVec (C12.mergeChannelMaps p.maps) ∧
+      v.channelProbes = some (natVec (C12.channelProbes p.maps)) ∧
+      v.channelPositions = posArr (C12.mergePositions p.positions) :=
+  Lemmas.merged_dataset_loads inv p h
 
 end PhyVerif.C11
